@@ -45,10 +45,21 @@ def features(tree):
             for v in vs:
                 if "$" in v:
                     f.add("dollar-in-value")
+                if v != v.strip():
+                    f.add("value-has-surrounding-blanks")
         for s in t["sections"]:
             walk(s, False)
     walk(tree, True)
     return f
+
+
+# environment the '$(NAME)' lines of the alphabet refer to (set in every process that runs cases)
+ENV = {"VZ_C17_PAD": " p ", "VZ_C17_EMPTY": "", "VZ_C17_MID": "m $x #y", "VZ_C17_LT": "<a>"}
+
+
+def set_env():
+    import os
+    os.environ.update(ENV)
 
 
 def nontrivial(tree):
@@ -67,6 +78,7 @@ def nontrivial(tree):
 
 def check_text(text, acc, what):
     acc.current = text
+    set_env()
     st, r1 = load(text)
     acc.ev()
     has_define = any(l.strip().startswith(("%define", "%include")) for l in text.split("\n"))
@@ -90,6 +102,7 @@ def check_text(text, acc, what):
     t1 = full_tree(r1)
     feats = features(t1)
     feat = ("header-ends-with-slash" if "header-ends-with-slash" in feats else
+            "value-has-surrounding-blanks" if "value-has-surrounding-blanks" in feats else
             "dollar-in-value" if "dollar-in-value" in feats else "none")
     case = {"text": text, "space": what}
     try:
